@@ -8,6 +8,7 @@ A frame is a Python generator chain: `cur` is the innermost running coroutine,
 and hold whatever the coroutines do.
 -/
 import UH.Model.World
+import UH.Model.Heap
 namespace UH
 
 abbrev Outcome := Except ErrV Val
@@ -21,8 +22,8 @@ structure Cell where
 deriving Inhabited
 
 structure Store where
-  cells : Array Cell
-  fns : Array FnObj
+  cells : Heap Cell
+  fns : Heap FnObj
 deriving Inhabited
 
 structure Kont where
@@ -105,7 +106,7 @@ def doWorld (st : Store) (w : World) (op : WOp) : WOut :=
     | .os n => .err (osErr sp n)
     | .value => .err (valueErr sp)
     | .unmodelled s => .unmodelled s
-  let handleOf (f : FId) : Option Nat := match st.fns[f]? with | some (.file h) => some h | _ => none
+  let handleOf (f : FId) : Option Nat := match st.fns.get? f with | some (.file h) => some h | _ => none
   let onFile (sp : Span) (f : FId) : WOut :=
     match handleOf f with
     | none => (st, w, .unmodelled "not a file")
@@ -173,23 +174,23 @@ where
           | .ok [] => (st, w, .err (valueErr sp))
           | .ok (e :: _) => (st, w, .err (valueErr e.span))
 
-/-- the observer's notifications when a frame finishes (`debug_stack.pop()`, reversed) -/
-def afterEvents (depth : Nat) (failed : Bool) : List TId → Nat × List Event
-  | [] => (depth, [])
-  | t :: rest =>
-    let (d, evs) := afterEvents (depth - 1) failed rest
-    (d, evs ++ [Event.after depth t failed])
+/-- the observer's notifications when a frame finishes (`debug_stack.pop()`, reversed): one
+`after` event per waiting expression, newest first, the depth decreasing after each; the events
+are consed onto the (newest-first) log -/
+def afterEvents (failed : Bool) : Nat → List TId → List Event → Nat × List Event
+  | depth, [], log => (depth, log)
+  | depth, t :: rest, log => afterEvents failed (depth - 1) rest (Event.after depth t failed :: log)
 
 /-- deliver a frame's final result: resolve its box, pop it, answer the frame below -/
 def finishFrame (m : MState) (f : Frame) (rest : List Frame) (r : Outcome) : MState :=
   let store := match f.box with
     | some t => m.store.resolve (m.store.cells.size + 1) t r
     | none => m.store
-  let waiting := (m.dstack.head?.getD []).reverse
+  let waiting := m.dstack.head?.getD []      -- newest first = Python's `reversed(waiting_exprs)`
   let failed := match r with | .ok _ => false | .error _ => true
-  let (d, evs) := afterEvents m.depth failed waiting
+  let (d, evs) := afterEvents failed m.depth waiting m.events
   { m with store := store, tail := rest, resp := some r,
-           depth := d, dstack := m.dstack.drop 1, events := evs ++ m.events }
+           depth := d, dstack := m.dstack.drop 1, events := evs }
 
 /-- one micro-step of `evaluate` -/
 def step (m : MState) : MState :=
@@ -223,7 +224,7 @@ def step (m : MState) : MState :=
             let fresh := (store.getCell t').value.isNone
             { m with store := store, tail := newFrame store t' :: rest,
                      depth := m.depth + 1,
-                     dstack := (match m.dstack with | l :: ls => (l ++ [t']) :: ls | [] => [[t']]),
+                     dstack := (match m.dstack with | l :: ls => (t' :: l) :: ls | [] => [[t']]),
                      events := Event.before (m.depth + 1) t' :: m.events,
                      starts := if fresh then t' :: m.starts else m.starts }
           | .arg (.strict v) => finishFrame m f rest (.ok v)
@@ -253,7 +254,7 @@ def step (m : MState) : MState :=
         let id := m.store.fns.size
         put { f with cur := k id } { m with store := { m.store with fns := m.store.fns.push (mk id) } }
       | .getFn id k =>
-        match m.store.fns[id]? with
+        match m.store.fns.get? id with
         | some o => put { f with cur := k o } m
         | none => { m with status := .bottom }
       | .call op k ke => put { f with konts := ⟨k, ke⟩ :: f.konts, cur := expand op } m
@@ -271,7 +272,7 @@ def runN : Nat → MState → MState
     | _ => m
 
 /-- initial store: the built-in module function objects occupy the first ids -/
-def initStore : Store := ⟨#[], (bmodPaths.map FnObj.bmod).toArray⟩
+def initStore : Store := ⟨Heap.empty, Heap.ofList (bmodPaths.map FnObj.bmod)⟩
 
 def initState (store : Store) (world : World) (c : Comp Res) : MState :=
   { store := store, world := world, head := ⟨none, [], c⟩, tail := [], resp := none,
